@@ -134,6 +134,8 @@ label: for (;;) { break label; }
 """,
     },
     "Python": {
+        "unicode-names": "def \u00b5s_to_ms(t):\n    return t / 1000\n\ndef \ufb01le_size(p):\n    return len(p)\n\nclass K:\n    def \uff4d\uff45\uff54\uff48(self):\n        return 1\n    def cafe\u0301(self):\n        return 2\n",
+        "long-marker-comments": "def generated():  # nocl: this function is a generated state machine and is kept in one piece on purpose (see docs/design.md#generated)!\n    return 1\n\n# nocl-------------------------------------------------------------------------------- (separator, not a marker for anything)\ndef other():\n    return 2\n",
         "stubs-and-overloads": """from typing import overload
 
 @overload
@@ -174,6 +176,7 @@ class K:
         "pep695": "def first[T: (int, str)](\n    a: T,\n    b: list[T],\n) -> T:\n    return a\n\nclass Box[T]:\n    def get[U](self, u: U) -> T:\n        return self.v\n",
     },
     "Java": {
+        "unicode-names": "class T {\n    int \u00b5s(int t) {\n        return t;\n    }\n    int \ufb01le(int p) { // nocl: generated accessor, intentionally long explanation follows here (really)\n        return p;\n    }\n}\n",
         "one-liners": """class T { int one() { return 1; } int two() { return 2; }
     void run() { executor.submit(new Callable<Void>() { public Void call() throws Exception { return null; } }); }
 }
@@ -292,6 +295,7 @@ void c_api(void) {
 """,
     },
     "C": {
+        "long-marker-comments": "int generated(void) { /* nocl: this function is a generated state machine and is kept in one piece on purpose (see docs) */\n    return 1;\n}\n// nocl - - - - - - - - - - - - - - - - - - - - - - - - - - - - - - - - - - - - - - - - - - \"quoted\" /\nint other(void)\n{\n    return 2;\n}\n",
         "disabled-regions": """int one(void) { return 1; } int two(void) { return 2; }
 int with_disabled(int a)
 {
